@@ -27,6 +27,7 @@ RULE = (
     ' Round 11: environment sweep (see C03); on a leak an owed presentation request is still reported.'
     ' Round 12: hidden-switch sweep; tour events with application sends between two rejected messages; pass under `python -O`.'
     ' Round 13: tour event asked / presents itself / asked again (under every transport kind).'
+    ' Round 14: episodes of nodes 0 / 5 / 254 whose presentation carries every kind of version text (a refused gateway presentation that registered the node ends the episode); sleeper sweep.'
 )
 ASSUMPTIONS = [
     "a failed request write surfaces as a transport error from that listen step (any library error is accepted)",
